@@ -79,7 +79,8 @@ pub fn open_ctx(m: &BTreeMap<String, String>) -> Result<ArrCtx, String> {
     Ok(ArrCtx { store, array: Arc::new(array), path, es, opts })
 }
 
-fn log_err<E: std::fmt::Display>(e: &E) { if std::env::var("VERIF_ERR_MSG").is_ok() { eprintln!("ERR: {}", e); } }
+/// every error is formatted (an error whose `Display` panics is a crash like any other)
+fn log_err<E: std::fmt::Display>(e: &E) { let msg = e.to_string(); if std::env::var("VERIF_ERR_MSG").is_ok() { eprintln!("ERR: {}", msg); } }
 fn res_unit<E: std::fmt::Display>(r: Result<(), E>) -> String { match r { Ok(()) => "ok".into(), Err(e) => { log_err(&e); "err".into() } } }
 fn res_val<E: std::fmt::Display>(es: Option<usize>, r: Result<ArrayBytes<'_>, E>) -> String {
     match r { Ok(b) => format!("val {}", show_elems(&from_array_bytes(es, b))), Err(e) => { log_err(&e); "err".into() } }
@@ -255,6 +256,15 @@ fn gen_chain(rng: &mut Rng, dt: &DType, cs: Option<&[u64]>, depth: u32, allow_sh
             desc.push(format!("transpose{}", perm.iter().map(|x| x.to_string()).collect::<String>()));
             cs_cur = cs_cur.map(|c| perm.iter().map(|&p| c[p]).collect());
             perm_applied = Some(perm.clone());
+            if r >= 2 && rng.chance(1, 3) {
+                // a second transpose: the composite maps encoded axis i to decoded axis perm[perm2[i]]
+                let mut perm2: Vec<usize> = (0..r).collect();
+                for i in (1..r).rev() { let j = rng.below(i as u64 + 1) as usize; perm2.swap(i, j); }
+                json.push(format!("{{\"name\":\"transpose\",\"configuration\":{{\"order\":[{}]}}}}", perm2.iter().map(|x| x.to_string()).collect::<Vec<_>>().join(",")));
+                desc.push(format!("transpose{}", perm2.iter().map(|x| x.to_string()).collect::<String>()));
+                cs_cur = cs_cur.map(|c| perm2.iter().map(|&p| c[p]).collect());
+                perm_applied = Some(perm2.iter().map(|&i| perm[i]).collect());
+            }
         }
         if r >= 1 && rng.chance(1, 8) && dt.es.is_some() {
             json.push("{\"name\":\"zarrs.squeeze\"}".into());
